@@ -126,4 +126,51 @@ func init() {
 	})
 }
 
+var bvLitRe = regexp.MustCompile(`#b[01]+|#x[0-9a-fA-F]+`)
+
+// modelFunLits returns the bit-vector literals occurring in the model's definition of a symbol.
+func modelFunLits(model, name string) []*big.Int {
+	i := strings.Index(model, "(define-fun "+name+" ")
+	if i < 0 {
+		return nil
+	}
+	rest := model[i:]
+	if j := strings.Index(rest[1:], "(define-fun "); j > 0 {
+		rest = rest[:j+1]
+	}
+	var out []*big.Int
+	for _, l := range bvLitRe.FindAllString(rest, -1) {
+		if v, ok := smtBVToBig(l); ok {
+			out = append(out, v)
+		}
+	}
+	return out
+}
+
+func init() {
+	replayDrivers = append(replayDrivers, replayDriver{
+		match: func(n string) bool { return strings.HasPrefix(n, "certgen.ValidatePublicKeyStrength#C10.strong") },
+		run: func(r *Report, o *Obligation, sr *SolveResult) ReplayResult {
+			bits := int64(2047)
+			for _, v := range modelFunLits(sr.Model, "ghost_bitlen") {
+				if v.IsInt64() && v.Int64() > 0 && v.Int64() < 1<<20 {
+					bits = v.Int64()
+				}
+			}
+			e := int64(65537)
+			for _, v := range modelFunLits(sr.Model, "H0_F_crypto_rsa_PublicKey_E") {
+				if v.IsInt64() && v.Int64() > e {
+					e = v.Int64()
+				}
+			}
+			if !strings.Contains(sr.Model, "PublicKey_E") && !strings.Contains(sr.Model, "ghost_bitlen") {
+				return ReplayResult{Summary: "the model is not about an RSA key; see solver_output"}
+			}
+			in := map[string]string{"bitlen": fmt.Sprint(bits), "e": fmt.Sprint(e)}
+			out, conf := goReplay(r, "lib/certgen", "certgen_replay_test.go", "TestVerifReplayKeyStrengthRSA", in)
+			return ReplayResult{Confirmed: conf, Summary: replaySummary(out), Inputs: in, Output: truncate(out, 4000), Driver: "TestVerifReplayKeyStrengthRSA"}
+		},
+	})
+}
+
 var intRe = regexp.MustCompile(`\(?-?[0-9]+\)?`)
